@@ -221,20 +221,29 @@ class CondMap:
     pass
 
 
+_CONDMAP_CLS = []
+
+
+def _cond_map_cls():
+    if not _CONDMAP_CLS:
+        import equinox as eqx
+        import jax.numpy as jnp
+
+        class CondMapModule(eqx.Module):
+            w: object
+            nd: int
+
+            def __call__(self, c):
+                return jnp.tensordot(self.w, c, axes=self.nd)
+
+        _CONDMAP_CLS.append(CondMapModule)
+    return _CONDMAP_CLS[0]
+
+
 def _cond_map(shape, cond, salt):
-    import equinox as eqx
-    import jax.numpy as jnp
-
-    class _CondMap(eqx.Module):
-        w: object
-        nd: int
-
-        def __call__(self, c):
-            return jnp.tensordot(self.w, c, axes=self.nd)
-
     n = prod(shape) * prod(cond)
     w = (0.5 * _pat(n, salt, 1.3, 0.7) + 0.8).reshape(*shape, *cond)  # distinct, non-zero weights
-    return _CondMap(w, len(cond))
+    return _cond_map_cls()(w, len(cond))
 
 
 def child_salt(salt, i):
